@@ -68,6 +68,68 @@ fn gen(profile: &str, n: usize, lo: i128, hi: i128, r: &mut Rng) -> Vec<i128> {
     let clamp = |x: i128| x.max(lo).min(hi);
     let mut v = Vec::with_capacity(n);
     // ---- width sweeps: "w<k>", "dw<k>", "bs<k>" (k = a bit width the container can choose)
+    // ---- deceptive samples: "dec_<shape>_<out>".  The data looks sorted / constant / small-range / arithmetic on
+    // every position a sampling analysis would look at (the first and last 8 elements, every (n/16)-th element and
+    // its neighbours, the first 128 elements, and - for long inputs - the first 1000), and has one to three
+    // outliers (above the maximum / below the minimum of everything else, or both) at other positions.
+    if let Some(rest) = profile.strip_prefix("dec_") {
+        let (shape, out) = rest.split_once('_').unwrap_or((rest, "hi"));
+        // the ordinary values live in a window well inside the domain (non-negative for signed types, so that
+        // their 64-bit images ascend with the values); the outliers are the domain's extremes
+        let w_lo = zero + span / 8;
+        let w_hi = (zero + span / 4).max(w_lo + 1).min(hi);
+        let room = w_hi - w_lo;
+        let mut x = w_lo;
+        let step = (room / (n as i128 + 1)).max(0);
+        let c = rand_in(r, w_lo, w_hi);
+        for i in 0..n {
+            v.push(match shape {
+                "sorted" => {
+                    x = (x + rand_in(r, 0, step.min(50))).min(w_hi);
+                    x
+                }
+                "arith" => (w_lo + step.min(7).max(if room >= n as i128 { 1 } else { 0 }) * i as i128).min(w_hi),
+                "const" => c,
+                _ => (w_lo + rand_in(r, 0, 15.min(room))).min(w_hi), // "small"
+            });
+        }
+        if shape == "small" && n >= 8 {
+            // ascending ends, so that an analysis of the ends takes the input for sorted
+            v[..4].sort_unstable();
+            v[n - 4..].sort_unstable();
+            let (a, b) = (v[0].min(v[n - 4]), v[3].max(v[n - 1]));
+            v[0] = a;
+            v[n - 1] = b;
+        }
+        if n >= 24 {
+            let stride = (n / 16).max(1);
+            let sampled = |p: usize| p < 8 || p + 8 >= n || p % stride == 0 || (p + 1) % stride == 0 || p % stride == 1;
+            let mut spots: Vec<usize> = vec![];
+            for want in [n / 2, if n > 300 { n - 40 } else { n * 3 / 4 }, if n > 1100 { 1000 + (n - 1000) / 2 } else { n / 3 }, if n > 200 { 150 } else { n / 4 }] {
+                let mut p = want.min(n - 9);
+                while p > 8 && (sampled(p) || spots.contains(&p)) {
+                    p -= 1;
+                }
+                if p > 8 && !spots.contains(&p) {
+                    spots.push(p);
+                }
+            }
+            let highs = [hi, hi - rand_in(r, 0, 3.min(span)), w_hi + (hi - w_hi) / 2];
+            let lows = [lo, lo + rand_in(r, 0, 3.min(span)), zero.min(w_lo)];
+            for (j, &p) in spots.iter().take(if n % 2 == 0 { 1 } else { 3 }).enumerate() {
+                v[p] = match out {
+                    "hi" => highs[j % 3],
+                    "lo" => lows[j % 3],
+                    _ => if j % 2 == 0 { highs[j % 3] } else { lows[j % 3] },
+                };
+            }
+            // one interior element only just outside the range of the ends
+            if let Some(&p) = spots.get(3) {
+                v[p] = if out == "lo" { (v[0] - 1).max(lo) } else { (v[n - 1] + 1).min(hi) };
+            }
+        }
+        return v;
+    }
     // ---- field-width boundaries: the range ("r") or the largest adjacent difference ("dr") is exactly 2^k ("z")
     // or 2^k + 1 ("p") - one past what k bits hold (2^k - 1 is the w<k> / dw<k> family)
     let edge = |pre: &str| -> Option<(u32, i128)> {
@@ -1674,7 +1736,9 @@ fn cases(a: &Args, name: &str) -> Vec<(&'static str, i128, i128, String, usize)>
     let doms = domains(name);
     let quick = !a.thorough();
     // the delegating IntVec constructors take every second (profile, length) pair in the quick tier
-    let half = quick && fam == "intvec" && !name.ends_with(":from_slice");
+    // (from_slice_bulk only: from_slice_bulk_simd has its own strategy analysis for 65..=2048 elements and gets
+    // every profile at every length)
+    let half = quick && fam == "intvec" && name.ends_with(":from_slice_bulk");
     // construction-route twins and flipped-flag twins: their own value is the route / the flag; the quick tier
     // gives them the boundary lengths only
     let twin = matches!(variant_of(name), "new_set" | "resize_set" | "risk")
@@ -1790,6 +1854,44 @@ fn cases(a: &Args, name: &str) -> Vec<(&'static str, i128, i128, String, usize)>
                 if type_bits(name) == 8 && name.ends_with(":from_slice") && (p == "full" || p == "outliers" || !quick) {
                     v.push((dom, lo, hi, p.to_string(), 17407));
                     v.push((dom, lo, hi, p.to_string(), 17408));
+                }
+            }
+        }
+    }
+    // ---- deceptive samples on both sides of every routing threshold (64/65, 128/129, 1000/1001, 1024/1025,
+    // 2048/2049, 10000/10001), for every constructor that analyses its input
+    let analyses = match fam {
+        "intvec" => true,
+        "uintvec" => variant_of(name) == "build_from",
+        "uvm0" | "zipint" => matches!(variant_of(name), "usize" | "u32" | "i32"),
+        _ => false,
+    };
+    if analyses {
+        const DEC: &[&str] = &[
+            "dec_sorted_hi", "dec_sorted_lo", "dec_sorted_both", "dec_const_hi", "dec_const_both", "dec_small_both", "dec_arith_hi",
+            "dec_arith_lo",
+        ];
+        let (dom, lo, hi) = doms[0];
+        let bulk_twin = name.ends_with(":from_slice_bulk");
+        for (pi, p) in DEC.iter().enumerate() {
+            for &n in &[64usize, 65, 128, 129] {
+                if !(quick && bulk_twin && (pi + n) % 2 == 1) {
+                    v.push((dom, lo, hi, p.to_string(), n));
+                }
+            }
+            // long inputs: both sides of a threshold get the same profiles; the quick tier rotates three of the
+            // eight profiles over the pairs (all of them for the SIMD constructor's own range up to 2049)
+            for (ti, pair) in [[1000usize, 1001], [1024, 1025], [2048, 2049], [10000, 10001]].iter().enumerate() {
+                let simd = name.ends_with("bulk_simd") && ti < 3;
+                let other = !bulk_twin && !name.ends_with("bulk_simd") && match ti {
+                    0 | 1 => (pi + ti) % 3 == 0,
+                    3 => pi % 4 == 0 && (name.ends_with(":from_slice") || fam == "uintvec"),
+                    _ => false,
+                };
+                let take = !quick || (simd && pi % 2 == ti % 2) || other;
+                if take {
+                    v.push((dom, lo, hi, p.to_string(), pair[0]));
+                    v.push((dom, lo, hi, p.to_string(), pair[1]));
                 }
             }
         }
